@@ -156,7 +156,9 @@ def build(cfg, W):
     def m_post():
         return Response('answered-by-post-route')
     from clastic import GET, POST
-    routes = [GET('/m', m_get), POST('/m', m_post),
+    def typed(n, f=None):
+        return Response('answered-by-typed-route %r %r' % (n, f))
+    routes = [GET('/m', m_get), POST('/m', m_post), ('/t/<n:int>', typed), ('/t/<n:int>/<f:float>', typed),
               Route('/r/<beh>/<pos>/<n>', endpoint, render, middlewares=[mw]),
               Route('/n/<beh>/<pos>/<n>', endpoint, middlewares=[mw])]
     return Application(routes, error_handler=handler)
@@ -167,6 +169,11 @@ def one_request(app, W, beh, pos, n, accept, method='GET'):
     use_norender = (pos in ('ep', 'epmwBefore', 'epmwAfter') and beh == 'nonresp') or (pos in ('ep', 'rqmwBefore', 'rqmwAfter', 'epmwBefore', 'epmwAfter')
                                                              and beh != 'ctx' and n % 2 == 1)
     path = '/%s/%s/%s/%d' % ('n' if use_norender else 'r', beh, pos, n)
+    if beh in ('tOk', 'tBad'):
+        method = 'GET' if method == 'HEAD' else method       # a HEAD response has no body to identify the route
+        good = ['/t/5', '/t/-17', '/t/5/2.5', '/t/0/1e3']
+        bad = ['/t/+ 5', '/t/- 3', '/t/5/+ .5', '/t/7/- 1e5', '/t/' + '9' * 5000]
+        path = (good if beh == 'tOk' else bad)[n % (4 if beh == 'tOk' else 5)]
     if beh in ('mGet', 'mPost', 'mWrong'):
         path = '/m'
         method = {'mGet': 'GET', 'mPost': 'POST', 'mWrong': ['PUT', 'DELETE', 'PATCH'][n % 3]}[beh]
@@ -183,7 +190,8 @@ def one_request(app, W, beh, pos, n, accept, method='GET'):
         same = e is W.raised
         return {'k': 'escape', 'cls': type(e).__name__, 'same_object': same, 'msg': repr(e)[:200] if not isinstance(e, (BadRepr,)) else 'BadRepr'}
     code = int(status.split()[0])
-    by = 'get' if b'answered-by-get-route' in body else ('post' if b'answered-by-post-route' in body else None)
+    by = 'get' if b'answered-by-get-route' in body else ('post' if b'answered-by-post-route' in body else
+                                                            ('typed' if b'answered-by-typed-route' in body else None))
     return {'k': 'status', 'code': code, 'len': len(body), 'own': W.http.code if W.http else None, 'by': by}
 
 
@@ -210,6 +218,8 @@ def judge(exp, obs):
         allowed.add(200)
     elif st == '405':
         allowed.add(405)
+    elif st == '404':
+        allowed.add(404)
     elif st == 'ok':
         allowed.add(200)
     elif st == '500':
